@@ -149,11 +149,26 @@ type el struct {
 //	q ((sym) . id)        assoc entry with :key car
 //	r (id . sym)          rassoc entry
 //	R (id sym)            rassoc entry with :key car  (cdr = (sym))
+//	n fixnum 1000 + letter (adjoin / pushnew: eql and equal agree on it, identity of the boxed value does not)
 func (c *call) shape(i int) byte {
+	if len(c.typs) <= i { // functions without a sequence argument (make-sequence)
+		if c.rtype == "string" {
+			return 'c'
+		}
+		return 'y'
+	}
 	if c.typs[i] == 'S' {
 		return 'c'
 	}
 	switch c.fn {
+	case "adjoin", "pushnew":
+		if c.key || c.pred == "pairs" {
+			return 'p'
+		}
+		if c.pred == "nums" {
+			return 'n'
+		}
+		return 'y'
 	case "assoc", "assoc-if", "assoc-if-not":
 		if c.key {
 			return 'q'
@@ -164,7 +179,7 @@ func (c *call) shape(i int) byte {
 			return 'R'
 		}
 		return 'r'
-	case "concatenate", "map", "mapcar", "every", "some", "notany", "notevery":
+	case "concatenate", "map", "mapcar", "every", "some", "notany", "notevery", "mapc", "mapcan", "mapcon", "mapl", "maplist", "map-into":
 		if c.charElems() {
 			return 'c'
 		}
@@ -232,6 +247,8 @@ func litEl(shape byte, e el) string {
 		return `#\` + string(wide(e.ch))
 	case 'p':
 		return fmt.Sprintf("(%c . %d)", e.ch, e.id)
+	case 'n':
+		return strconv.Itoa(1000 + int(e.ch))
 	case 'q':
 		return fmt.Sprintf("((%c) . %d)", e.ch, e.id)
 	case 'r':
@@ -266,6 +283,19 @@ func litSeq(typ byte, shape byte, els []el) string {
 		b.WriteString("'(")
 	case 'V':
 		b.WriteString("#(")
+	case 'F':
+		// a vector with a fill pointer: the elements are the active ones, two more sit behind the fill pointer
+		n := len(els)
+		els = append(append([]el(nil), els...), hiddenEls...)
+		fmt.Fprintf(&b, "(make-array %d :fill-pointer %d :initial-contents '(", len(els), n)
+		for i, e := range els {
+			if 0 < i {
+				b.WriteByte(' ')
+			}
+			b.WriteString(litEl(shape, e))
+		}
+		b.WriteString("))")
+		return b.String()
 	}
 	for i, e := range els {
 		if 0 < i {
@@ -276,6 +306,9 @@ func litSeq(typ byte, shape byte, els []el) string {
 	b.WriteByte(')')
 	return b.String()
 }
+
+// hiddenEls are the two elements a fill-pointer vector (type F) keeps behind its fill pointer.
+var hiddenEls = []el{{ch: 'x', id: 98}, {ch: 'w', id: 97}}
 
 // showSeq renders a sequence the way lisp.Show renders the slip object.
 func showSeq(typ byte, shape byte, els []el) string {
@@ -291,7 +324,7 @@ func showSeq(typ byte, shape byte, els []el) string {
 			return "nil"
 		}
 		b.WriteByte('(')
-	case 'V':
+	case 'V', 'F':
 		b.WriteString("#(")
 	}
 	for i, e := range els {
@@ -306,6 +339,9 @@ func showSeq(typ byte, shape byte, els []el) string {
 
 // itemLit writes the item compared against (key element).
 func (c *call) itemLit(ch rune) string {
+	if sh := c.shape(0); family(c.fn) == famAdjoin && (sh == 'p' || sh == 'n') {
+		return "'" + litEl(sh, c.adjoinItem())
+	}
 	if c.shape(0) == 'c' {
 		return `#\` + string(wide(ch))
 	}
@@ -376,6 +412,8 @@ func (c *call) kwText(two bool) string {
 		b.WriteString(" :test " + lamEQV)
 	case "not":
 		b.WriteString(" :test-not 'equal")
+	case "notlam":
+		b.WriteString(" :test-not " + lamLT)
 	}
 	if c.count != "" {
 		b.WriteString(" :count " + c.count)
@@ -407,6 +445,12 @@ func (c *call) predLit() string {
 		return lamLT
 	case "gtp":
 		return lamGT
+	case "hid":
+		return "(lambda (v) (equal v 'x))" // true of the first element behind the fill pointer only
+	case "eq3":
+		return "(lambda (p q r) (and (equal p q) (equal q r)))"
+	case "lt13":
+		return "(lambda (p q r) (c14-lt p r))"
 	}
 	panic("bad pred " + c.pred)
 }
@@ -423,6 +467,15 @@ func (c *call) form() string {
 	case famSubstIf:
 		return fmt.Sprintf("(%s %s %s %s%s)", c.fn, c.newLit(), c.predLit(), c.seqLit(0), c.kwText(false))
 	case famDups, famRev:
+		if c.typs[0] == 'F' {
+			// the result, (reverse only) the argument afterwards, and the two elements behind the fill pointer
+			n := len(c.seqs[0])
+			arg := ""
+			if c.fn == "reverse" {
+				arg = " v"
+			}
+			return fmt.Sprintf("(let ((v %s)) (list (%s v)%s (aref v %d) (aref v %d)))", c.seqLit(0), c.fn, arg, n, n+1)
+		}
 		return fmt.Sprintf("(%s %s%s)", c.fn, c.seqLit(0), c.kwText(false))
 	case famTwo:
 		return fmt.Sprintf("(%s %s %s%s)", c.fn, c.seqLit(0), c.seqLit(1), c.kwText(true))
@@ -459,7 +512,47 @@ func (c *call) form() string {
 				rt = "'" + c.rtype + " "
 			}
 		}
+		if c.pred == "acc" {
+			return fmt.Sprintf("(let ((acc nil)) (list (%s %s%s%s) acc))", c.fn, rt, c.mapFnLit(), s)
+		}
 		return fmt.Sprintf("(%s %s%s%s)", c.fn, rt, c.mapFnLit(), s)
+	case famMapL:
+		s := ""
+		for i := range c.seqs {
+			s += " " + c.seqLit(i)
+		}
+		if c.pred == "acc" {
+			return fmt.Sprintf("(let ((acc nil)) (list (%s %s%s) acc))", c.fn, c.mapFnLit(), s)
+		}
+		return fmt.Sprintf("(%s %s%s)", c.fn, c.mapFnLit(), s)
+	case famMapInto:
+		s := ""
+		for i := 1; i < len(c.seqs); i++ {
+			s += " " + c.seqLit(i)
+		}
+		return fmt.Sprintf("(let ((r %s)) (list (map-into r %s%s) r))", c.seqLit(0), c.mapFnLit(), s)
+	case famAdjoin:
+		if c.fn == "pushnew" {
+			return fmt.Sprintf("(let ((l %s)) (list (pushnew %s l%s) l))", c.seqLit(0), c.itemLit(rune(c.item[0])), c.kwText(false))
+		}
+		return fmt.Sprintf("(adjoin %s %s%s)", c.itemLit(rune(c.item[0])), c.seqLit(0), c.kwText(false))
+	case famSelf:
+		return fmt.Sprintf("(let ((s %s)) (replace s s%s))", c.seqLit(0), c.kwText(true))
+	case famMake:
+		if c.fn == "copy-seq" {
+			if c.copyMutates() {
+				return fmt.Sprintf("(let* ((s %s) (c (copy-seq s))) (setf (elt c 0) %s) (list c s))", c.seqLit(0), c.newLit())
+			}
+			return fmt.Sprintf("(copy-seq %s)", c.seqLit(0))
+		}
+		if !c.init {
+			// the elements are not defined without :initial-element: only the length and the type are looked at
+			pred := map[string]string{"list": "listp", "vector": "vectorp", "string": "stringp"}[c.rtype]
+			return fmt.Sprintf("(let ((s (make-sequence '%s %d))) (list (length s) (if (%s s) t nil)))", c.rtype, c.start, pred)
+		}
+		return fmt.Sprintf("(make-sequence '%s %d :initial-element %s)", c.rtype, c.start, c.newLit())
+	case famElt:
+		return fmt.Sprintf("(elt %s %d)", c.seqLit(0), c.start)
 	case famReduce:
 		return fmt.Sprintf("(reduce 'c14-pair %s%s)", c.seqLit(0), c.kwText(false))
 	case famConcat:
@@ -472,8 +565,42 @@ func (c *call) form() string {
 	panic("no form for " + c.fn)
 }
 
+// copyMutates: the copy-seq case that stores into the copy and looks at the original afterwards.
+func (c *call) copyMutates() bool {
+	return 0 < len(c.seqs[0]) && c.typs[0] != 'S'
+}
+
+// params: the parameter names of an n-ary lambda.
+func params(n int) string {
+	return strings.Join([]string{"p", "q", "r"}[:n], " ")
+}
+
 func (c *call) mapFnLit() string {
+	n := len(c.seqs)
+	if c.fn == "map-into" {
+		n--
+	}
 	switch c.pred {
+	case "tuple":
+		if n == 0 {
+			return "(lambda () 'z)"
+		}
+		return fmt.Sprintf("(lambda (%s) (list %s))", params(n), params(n))
+	case "last":
+		return fmt.Sprintf("(lambda (%s) %s)", params(n), []string{"p", "q", "r"}[n-1])
+	case "acc":
+		return fmt.Sprintf("(lambda (%s) (setq acc (cons (list %s) acc)))", params(n), params(n))
+	case "self":
+		return "(lambda (p) p)"
+	case "copy":
+		return "(lambda (p) (copy-list p))"
+	case "dup":
+		return "(lambda (p) (list p p))"
+	case "filt":
+		if c.fn == "mapcon" {
+			return fmt.Sprintf("(lambda (%s) (if (equal (car p) 'b) nil (list (car p))))", params(n))
+		}
+		return fmt.Sprintf("(lambda (%s) (if (equal p 'b) nil (list p)))", params(n))
 	case "wrap":
 		return "(lambda (v) (list v))"
 	case "up":
@@ -508,6 +635,12 @@ const (
 	famMap
 	famReduce
 	famConcat
+	famMapL
+	famMapInto
+	famAdjoin
+	famSelf
+	famMake
+	famElt
 )
 
 func family(fn string) fam {
@@ -534,8 +667,21 @@ func family(fn string) fam {
 		return famSort
 	case "merge":
 		return famMerge
-	case "union", "nunion", "intersection", "nintersection", "set-difference", "nset-difference", "subsetp":
+	case "union", "nunion", "intersection", "nintersection", "set-difference", "nset-difference", "subsetp",
+		"set-exclusive-or", "nset-exclusive-or":
 		return famSet
+	case "mapc", "mapcan", "mapcon", "mapl", "maplist":
+		return famMapL
+	case "map-into":
+		return famMapInto
+	case "adjoin", "pushnew":
+		return famAdjoin
+	case "replace-self":
+		return famSelf
+	case "make-sequence", "copy-seq":
+		return famMake
+	case "elt":
+		return famElt
 	case "every", "some", "notany", "notevery":
 		return famQuant
 	case "map", "mapcar":
